@@ -21,7 +21,8 @@ fn shim_zw_write_all<W: Write + io::Seek>(w: &mut ZipWriter<W>, buf: &[u8]) -> (
             && final(w).files@.last().large_file == old(w).files@.last().large_file
             && final(w).inner == old(w).inner && final(w).stats.bytes_written == old(w).stats.bytes_written
             && final(w).stats.hasher@ == old(w).stats.hasher@ && final(w).stats.start == old(w).stats.start,
-        // data mode: on success the whole buffer was accounted
+        // data mode: the entry records are not touched; on success the whole buffer was accounted
+        !old(w).writing_to_extra_field ==> final(w).files@ == old(w).files@,
         r is Ok && !old(w).writing_to_extra_field ==> final(w).stats.hasher@ == old(w).stats.hasher@ + buf@
             && final(w).stats.bytes_written == old(w).stats.bytes_written + buf@.len(),
         // ... and, for a stored entry on a device sink, every byte of the buffer went to the sink, in order, at its position
@@ -57,6 +58,7 @@ fn shim_zw_write_all<W: Write + io::Seek>(w: &mut ZipWriter<W>, buf: &[u8]) -> (
             !old(w).writing_to_extra_field ==> w.stats.hasher@ == old(w).stats.hasher@ + all.subrange(0, all.len() - buf@.len())
                 && w.stats.bytes_written == old(w).stats.bytes_written + (all.len() - buf@.len()),
             old(w).stats.bytes_written + all.len() <= 0x7fff_ffff_ffff_ffff,
+            !old(w).writing_to_extra_field ==> w.files@ == old(w).files@,
             old(w).inner is Closed ==> w.inner is Closed,
             gzw_method(w.inner) == gzw_method(old(w).inner), zw_wf(old(w)),
             old(w).writing_to_file && !old(w).writing_to_extra_field && gzw_plain(old(w).inner) ==> gzw_plain(w.inner)
